@@ -1182,7 +1182,7 @@ func c05Writer(c *fw.Ctx) fw.Outcome {
 }
 
 func init() {
-	n := func(tier string) int64 { return tierN(tier, 4000, 60000) }
+	n := func(tier string) int64 { return tierN(tier, 4000, 400000) }
 	enum := stlEnumeration()
 	const enumDocs = 6 // the enumeration under DSC 0/1/2 x fps 25/30 is drawn by the seed; 6 documents per run
 	fw.Register(&fw.Property{
